@@ -135,6 +135,18 @@ class TriggerHandler:
         :param arg: the args
         :return: None to ignore other calls, or our self to continue
         """
+        try:
+            return self._trace_call(frame, event, arg)
+        except BaseException:
+            # whatever goes wrong in here must not be raised into the application (python would also remove
+            # the trace function of this thread), so we log it and keep tracing
+            try:
+                logging.exception("Cannot process trace event %s", event)
+            except BaseException:
+                pass
+            return self.trace_call
+
+    def _trace_call(self, frame: FrameType, event: str, arg):
         event, file, line, function = self.location_from_event(event, frame)
         trigger_context = TriggerContext(self._config, self._push_service, frame, event, arg)
 
